@@ -58,14 +58,12 @@ Lemma C17_bad_line p b e r' :
   odk_process p b = Some (Err (OComm e), {| pt_in := r'; pt_out := pt_out p |}, b, None).
 Proof. intros H. unfold odk_process. rewrite H. reflexivity. Qed.
 
-Definition wr_clean_sched (s : list wr_ev) : Prop :=
-  forall ev, In ev s -> ev <> WFail /\ ev <> WZero.
-
-(* A decodable line: exactly its message is handed to the bus; a frame is written back exactly
-   when the bus replied, and it is the reply's frame. *)
+(* A decodable line: exactly its message is handed to the bus; nothing is written when the bus
+   stays silent; when the bus replies, the reply's frame is written back (and only a write
+   fault, WFail/WZero in the schedule, can cut it short: then a communication error is
+   reported, with the signs already stepped). *)
 Lemma C17_forwarding p b f r' :
   frame_read (pt_in p) = Some (Ok f, r') ->
-  wr_clean_sched (w_sched (pt_out p)) ->
   match bus_step b (msg_of_frame f) with
   | None =>
       odk_process p b
@@ -74,16 +72,39 @@ Lemma C17_forwarding p b f r' :
       odk_process p b
       = Some (Ok tt, {| pt_in := r'; pt_out := pt_out p |}, b', Some (msg_of_frame f))
   | Some (b', Some rm) =>
-      exists w', odk_process p b
-                 = Some (Ok tt, {| pt_in := r'; pt_out := w' |}, b', Some (msg_of_frame f))
-                 /\ w_out w' = w_out (pt_out p) ++ encode_nl (frame_of_msg rm)
+      exists res w',
+        odk_process p b = Some (res, {| pt_in := r'; pt_out := w' |}, b', Some (msg_of_frame f))
+        /\ ((res = Ok tt /\ w_out w' = w_out (pt_out p) ++ encode_nl (frame_of_msg rm))
+            \/ (res = Err (OComm RIo)
+                /\ (In WFail (w_sched (pt_out p)) \/ In WZero (w_sched (pt_out p)))
+                /\ exists k, (k < length (encode_nl (frame_of_msg rm)))%nat
+                             /\ w_out w' = w_out (pt_out p)
+                                           ++ firstn k (encode_nl (frame_of_msg rm))))
   end.
 Proof.
-  intros H Hclean. unfold odk_process. rewrite H.
+  intros H. unfold odk_process. rewrite H.
   destruct (bus_step b (msg_of_frame f)) as [[b' [rm|]]|]; try reflexivity.
-  destruct (pt_out p) as [out sched]. cbn [w_sched w_out] in *.
-  destruct (C15_write_all (frame_of_msg rm) out sched Hclean) as (w' & Hw & Ho).
-  rewrite Hw. exists w'. split; [reflexivity|exact Ho].
+  destruct (frame_write (frame_of_msg rm) (pt_out p)) as [[res w']|] eqn:E;
+    [|exfalso; exact (C15_write_total _ _ E)].
+  destruct (C15_write_cases _ _ _ _ E) as [_ [[Hres Ho]|(Hres & Hin & Hk)]]; subst res.
+  - exists (Ok tt), w'. split; [reflexivity|]. left. split; [reflexivity|exact Ho].
+  - exists (Err (OComm RIo)), w'. split; [reflexivity|]. right.
+    split; [reflexivity|]. split; [exact Hin|exact Hk].
+Qed.
+
+(* With no write fault scheduled the reply's frame is written back whole. *)
+Lemma C17_forwarding_clean p b f r' b' rm :
+  frame_read (pt_in p) = Some (Ok f, r') ->
+  (forall ev, In ev (w_sched (pt_out p)) -> ev <> WFail /\ ev <> WZero) ->
+  bus_step b (msg_of_frame f) = Some (b', Some rm) ->
+  exists w', odk_process p b
+             = Some (Ok tt, {| pt_in := r'; pt_out := w' |}, b', Some (msg_of_frame f))
+             /\ w_out w' = w_out (pt_out p) ++ encode_nl (frame_of_msg rm).
+Proof.
+  intros H Hclean Hs. pose proof (C17_forwarding p b f r' H) as F. rewrite Hs in F.
+  destruct F as (res & w' & Ho & [[-> Hw]|(_ & Hin & _)]).
+  - exists w'. split; [exact Ho|exact Hw].
+  - exfalso. destruct Hin as [Hin|Hin]; destruct (Hclean _ Hin) as [H1 H2]; congruence.
 Qed.
 
 (* The bridge fed, through a pipe, the frame of a message. *)
@@ -951,3 +972,150 @@ Proof.
   - intros fuel. exact (same_end_of_tidy a _ b (tidy_switch_page a _ _ _ fuel) Hin).
   - exact (same_end_of_tidy a _ b (tidy_shut_down a) Hin).
 Qed.
+
+(* ------------------------------------------------------------------------- *)
+(** * Over the wire versus directly on the bus *)
+
+Lemma wire_done_iff {A} a (p : prog A) b b' v :
+  wf_prog p -> tidy a p -> doomed a p -> addrs_ok b ->
+  (run_wire p {| wr_bus := b; wr_inbox := [] |} = Some ({| wr_bus := b'; wr_inbox := [] |}, Done v)
+   <-> run_bus p b = (b', Done v)).
+Proof.
+  intros Hwf Ht Hd Hb. rewrite (C17_simulation_strict A p b Hwf Hb).
+  rewrite (together_of_shapes a p Ht Hd b b' v).
+  destruct (run_bus_strict p b) as [b2 o2]. split.
+  - intros E. injection E as <- <-. reflexivity.
+  - intros E. injection E as <- <-. reflexivity.
+Qed.
+
+Lemma wire_shut_down_iff a b b' v :
+  a < 65536 -> addrs_ok b ->
+  (run_wire (shut_down a) {| wr_bus := b; wr_inbox := [] |}
+   = Some ({| wr_bus := b'; wr_inbox := [] |}, Done v)
+   <-> run_bus (shut_down a) b = (b', Done v)).
+Proof.
+  intros Ha Hb.
+  rewrite (C17_simulation_strict _ _ b (wf_prog_ret_wf _ _ (wfp_shut_down a Ha)) Hb).
+  rewrite shut_down_runs. destruct (run_bus (shut_down a) b) as [b2 o2]. split.
+  - intros E. injection E as <- <-. reflexivity.
+  - intros E. injection E as <- <-. reflexivity.
+Qed.
+
+(* Success over the wire = success directly on the bus, same value, same final signs. *)
+Theorem C17_transparent b :
+  Forall (fun s => v_addr s < 65536) b ->
+  (forall a t b' v, a < 65536 ->
+      (run_wire (configure a t) {| wr_bus := b; wr_inbox := [] |}
+       = Some ({| wr_bus := b'; wr_inbox := [] |}, Done v)
+       <-> run_bus (configure a t) b = (b', Done v)))
+  /\ (forall a t b' v, a < 65536 ->
+      (run_wire (configure_if_needed a t) {| wr_bus := b; wr_inbox := [] |}
+       = Some ({| wr_bus := b'; wr_inbox := [] |}, Done v)
+       <-> run_bus (configure_if_needed a t) b = (b', Done v)))
+  /\ (forall a ps b' v, a < 65536 -> (forall p, In p ps -> bytesb (p_bytes p) = true) ->
+      (run_wire (send_pages a ps) {| wr_bus := b; wr_inbox := [] |}
+       = Some ({| wr_bus := b'; wr_inbox := [] |}, Done v)
+       <-> run_bus (send_pages a ps) b = (b', Done v)))
+  /\ (forall fuel a b' v, a < 65536 ->
+      (run_wire (show_loaded_page fuel a) {| wr_bus := b; wr_inbox := [] |}
+       = Some ({| wr_bus := b'; wr_inbox := [] |}, Done v)
+       <-> run_bus (show_loaded_page fuel a) b = (b', Done v)))
+  /\ (forall fuel a b' v, a < 65536 ->
+      (run_wire (load_next_page fuel a) {| wr_bus := b; wr_inbox := [] |}
+       = Some ({| wr_bus := b'; wr_inbox := [] |}, Done v)
+       <-> run_bus (load_next_page fuel a) b = (b', Done v)))
+  /\ (forall a b' v, a < 65536 ->
+      (run_wire (shut_down a) {| wr_bus := b; wr_inbox := [] |}
+       = Some ({| wr_bus := b'; wr_inbox := [] |}, Done v)
+       <-> run_bus (shut_down a) b = (b', Done v))).
+Proof.
+  intros Hb. destruct C17_wf_controller as (W1 & W2 & W3 & W4 & W5 & W6).
+  split; [|split; [|split; [|split; [|split]]]].
+  - intros a t b' v Ha.
+    exact (wire_done_iff a _ b b' v (W1 a t Ha) (tidy_configure a t) (doomed_configure a t) Hb).
+  - intros a t b' v Ha.
+    exact (wire_done_iff a _ b b' v (W2 a t Ha) (tidy_configure_if_needed a t)
+             (doomed_configure_if_needed a t) Hb).
+  - intros a ps b' v Ha Hps.
+    exact (wire_done_iff a _ b b' v (W3 a ps Ha Hps) (tidy_send_pages a ps)
+             (doomed_send_pages a ps) Hb).
+  - intros fuel a b' v Ha.
+    exact (wire_done_iff a _ b b' v (W4 fuel a Ha) (tidy_switch_page a _ _ _ fuel)
+             (doomed_switch_page a _ _ _ fuel) Hb).
+  - intros fuel a b' v Ha.
+    exact (wire_done_iff a _ b b' v (W5 fuel a Ha) (tidy_switch_page a _ _ _ fuel)
+             (doomed_switch_page a _ _ _ fuel) Hb).
+  - intros a b' v Ha. exact (wire_shut_down_iff a b b' v Ha Hb).
+Qed.
+
+(* With the address on the bus, a run over the wire always ends (never out of model fuel), with
+   an empty receive pipe and the signs exactly where the direct run leaves them; the outcome is
+   the direct run's, except that an unanswered request is a bus error (timeout) instead of an
+   unexpected response. *)
+Definition wire_matches {A : Type} (p : prog A) (b : list vsign) : Prop :=
+  exists o,
+    run_wire p {| wr_bus := b; wr_inbox := [] |}
+    = Some ({| wr_bus := fst (run_bus p b); wr_inbox := [] |}, o)
+    /\ (o = snd (run_bus p b) \/ (snd (run_bus p b) = ProtoErr /\ o = BusFailed)).
+
+Lemma wire_matches_of_tidy {A} a (p : prog A) b :
+  wf_prog p -> tidy a p -> addrs_ok b -> In a (map v_addr b) -> wire_matches p b.
+Proof.
+  intros Hwf Ht Hb Hin. unfold wire_matches. rewrite (C17_simulation_strict A p b Hwf Hb).
+  destruct (tidy_runs a p Ht b Hin) as [H1 H2].
+  destruct (run_bus_strict p b) as [b2 o2]. destruct (run_bus p b) as [b1 o1].
+  cbn [fst snd] in *. subst b2. exists o2. split; [reflexivity|].
+  destruct H2 as [->|[-> ->]]; [left; reflexivity|right; split; reflexivity].
+Qed.
+
+Lemma addr_on_bus_u16 a b : addrs_ok b -> In a (map v_addr b) -> a < 65536.
+Proof.
+  intros Hb Hin. apply in_map_iff in Hin. destruct Hin as (s & <- & Hs).
+  exact (addrs_ok_In b Hb s Hs).
+Qed.
+
+Theorem C17_wire_same_signs a b :
+  Forall (fun s => v_addr s < 65536) b -> In a (map v_addr b) ->
+  (forall t, wire_matches (configure a t) b)
+  /\ (forall t, wire_matches (configure_if_needed a t) b)
+  /\ (forall ps, (forall p, In p ps -> bytesb (p_bytes p) = true) ->
+                 wire_matches (send_pages a ps) b)
+  /\ (forall fuel, wire_matches (show_loaded_page fuel a) b)
+  /\ (forall fuel, wire_matches (load_next_page fuel a) b)
+  /\ wire_matches (shut_down a) b.
+Proof.
+  intros Hb Hin. pose proof (addr_on_bus_u16 a b Hb Hin) as Ha.
+  destruct C17_wf_controller as (W1 & W2 & W3 & W4 & W5 & W6).
+  split; [|split; [|split; [|split; [|split]]]].
+  - intros t. exact (wire_matches_of_tidy a _ b (W1 a t Ha) (tidy_configure a t) Hb Hin).
+  - intros t. exact (wire_matches_of_tidy a _ b (W2 a t Ha) (tidy_configure_if_needed a t) Hb Hin).
+  - intros ps Hps. exact (wire_matches_of_tidy a _ b (W3 a ps Ha Hps) (tidy_send_pages a ps) Hb Hin).
+  - intros fuel. exact (wire_matches_of_tidy a _ b (W4 fuel a Ha) (tidy_switch_page a _ _ _ fuel) Hb Hin).
+  - intros fuel. exact (wire_matches_of_tidy a _ b (W5 fuel a Ha) (tidy_switch_page a _ _ _ fuel) Hb Hin).
+  - exact (wire_matches_of_tidy a _ b (W6 a Ha) (tidy_shut_down a) Hb Hin).
+Qed.
+
+(* The defining equations of the strict run, for reference in props/C17.v. *)
+Lemma run_bus_strict_eqns {A} :
+  (forall (x : A) b, run_bus_strict (Ret x) b = (b, Done x))
+  /\ (forall b, run_bus_strict (@Fail A) b = (b, ProtoErr))
+  /\ (forall b, run_bus_strict (@Crash A) b = (b, Crashed))
+  /\ (forall m (k : option msg -> prog A) b,
+        run_bus_strict (Send m k) b
+        = match bus_step b m with
+          | None => (b, Crashed)
+          | Some (b', Some rm) => run_bus_strict (k (Some rm)) b'
+          | Some (b', None) =>
+              if response_expected m then (b', BusFailed) else run_bus_strict (k None) b'
+          end).
+Proof. repeat split. Qed.
+
+Lemma wf_prog_eqns {A} :
+  (forall x : A, wf_prog (Ret x) <-> True)
+  /\ (wf_prog (@Fail A) <-> True)
+  /\ (wf_prog (@Crash A) <-> True)
+  /\ (forall m (k : option msg -> prog A),
+        wf_prog (Send m k)
+        <-> wf_msg m /\ specific m /\
+            forall r, (r = None \/ exists rm, r = Some rm /\ wf_msg rm) -> wf_prog (k r)).
+Proof. repeat split; try exact (fun H => H); cbn [wf_prog] in *; tauto. Qed.
